@@ -21,6 +21,17 @@ def main():
         res["mpe"] = ("ok", c15.snapshot(a.result))
     except Exception as e:  # noqa: BLE001 - the isolated run's own outcome is the expectation
         res["mpe"] = ("raises", type(e).__name__)
+    # the same with the alternative parameter set given to the constructor (never through a setter)
+    s2 = c15._new_setup(kind, seed)
+    b = c15._new_alg(kind, cls_key, "fresh", alt=True)
+    s2.add_algorithms(b)
+    s2.run_by_name("fresh")
+    res["run_alt"] = ("ok", c15.snapshot(b.result))
+    try:
+        s2.mpe("fresh", sel_freq=list(c15.SEL), **mk)
+        res["mpe_alt"] = ("ok", c15.snapshot(b.result))
+    except Exception as e:  # noqa: BLE001
+        res["mpe_alt"] = ("raises", type(e).__name__)
     with open(out, "wb") as f:
         pickle.dump(res, f)
 
